@@ -13,6 +13,8 @@ DEFAULTS = [
      r'(^|::)(parse|parse_rdata|parse_section|new|extract_info_from_opt_rr)\b', r'.*', {'C01'}),
     (r'dns/name\.rs', r'as WireFormat::parse\b', r'invariant.*|termination|assert|postcondition', {'C06'}),
     (r'dns/(question|resource_record|packet)\.rs|dns/rdata/macros\.rs', r'(^|::)(parse|parse_rdata|parse_section)\b', r'postcondition|invariant.*|assert', {'C05'}),
+    (r'dns/rdata/.*\.rs|dns/character_string\.rs', r'(^|::)(parse|parse_rdata|write_to|len|write_common|lemma_rt)\b', r'postcondition|invariant.*|assert', {'C10'}),
+    (r'dns/.*\.rs', r'(^|::)lemma_rt\b', r'.*', {'C02', 'C03', 'C11'}),
     # writers must not panic and must emit what their contract says
     (r'dns/.*\.rs', r'(^|::)(write_to|write_common|plain_append|write_header|len|build_bytes_vec|opt_rr|get_flags)\b', r'.*', {'C04'}),
     (r'dns/.*\.rs', r'(^|::)(write_compressed_to|compress_append|build_bytes_vec_compressed)\b', r'.*', {'C03', 'C07'}),
@@ -85,9 +87,9 @@ PROPS = {
             'text': 'bounded for the composition, proof for the parts: (1) proved: parse => pkt_dec; write_compressed_to => pkt_dec(output, self) and per-element round-trip lemmas for every type, under wf_ok && wf_canon; (2) complete (Kani): header words with named opcode/rcode are re-serialised bit-exactly; reserved ones are not (known finding D11); (3) bounded: that every accepted message yields a packet satisfying wf_ok && wf_canon and re-serialises (plain and compressed) to a message that parses to the same packet is checked on ~40000 accepted/rejected variants of generated messages, not proved',
             'explanation': 'bounded: the lemma "wf_dec(data, p, v, p2) implies v.wf_ok() && v.wf_canon()" is not yet machine-checked; it is replaced by the stand-in suite `malformed` (every truncation, +-1 and 4 fixed values at every byte of ~45 generated messages < 600 bytes and 20 hand-made pointer graphs: each accepted variant is re-serialised plain and compressed and re-parsed) and `roundtrip`. Deductive parts and the Kani header harnesses are counted under obligations; the stand-in is not.',
             'note': VERUS_NOTE + '; ' + KANI_NOTE + '; known finding D11 (reserved opcode / rcode values are rewritten); uncompressed RDATA larger than 65535 bytes after pointer expansion is outside wf_ok'},
-    'C16': {'standin': ['roundtrip', 'malformed'], 'verus': False, 'level': 'other', 'kani': [],
-            'technique': 'bounded stand-in on the real code: into_owned / clone / Eq / Hash observers applied to every record of ~250 generated packets and to every accepted malformed variant',
-            'text': 'bounded: into_owned() of every parsed record compares equal, prints identically and hashes identically to the borrowed original on the generated corpus; the manual Hash / PartialEq pairs of Name and ResourceRecord delegate to the same fields (by inspection). No deductive contract yet; InstanceInformation (simple-mdns, HashSet iteration order) is not covered',
+    'C16': {'standin': ['roundtrip', 'malformed'], 'verus': True, 'level': 'other', 'kani': [],
+            'technique': 'Verus: into_owned contracts (same ghost view, same serialisation) generated from the RFC schema for the typed RDATA structs and hand-written for NULL NSAP IPSECKEY, the rr_wrapper types, RData, Question, ResourceRecord; bounded stand-in on the real code for the iterator-based bodies (Name, Label, CharacterString, TXT, OPT, NSEC, SVCB) and for the Eq/Hash agreement',
+            'text': 'proof for 30+ into_owned functions: every field of the owned copy has the same view and the copy has the same wf_enc (serialises identically), given the assumed contracts of the seven iterator/Into-based bodies; bounded: those seven bodies and the clause "values that compare equal hash equally" (Name, ResourceRecord incl. records differing only in ttl / cache-flush) are exercised on the generated corpus, not proved. InstanceInformation (simple-mdns, HashSet iteration order) is not covered',
             'explanation': 'bounded: suites `roundtrip` (211 packets: every constructible record kind x 5 name combinations, EDNS, messages straddling 16 KiB) and `malformed` (accepted variants). Not a proof.',
             'note': 'public API only; simple-mdns InstanceInformation clause of C16 is not decided'},
     'C12': {'standin': ['observers', 'malformed'], 'verus': True, 'kani': [],
